@@ -1,5 +1,6 @@
 import ZvbiModel.Cc.Paint3
 import ZvbiModel.Cc.Fields
+import ZvbiModel.Cc.PreMode
 import ZvbiModel.Cc.Refine9
 /-!
 # C08, continued - corrections inside a row in paint-on, roll-up and text mode; the two fields
@@ -206,6 +207,47 @@ theorem fields_independent_partial (hpf : currChanPerField = true) (s : St) (f :
 
 example : (decodePair init true 0x1C 0x20).chans[0]? = init.chans[0]? := by
   apply decodePair_untouched <;> decide
+
+/-- **chars_before_mode_discarded** (the initial state of `fields_independent`: `curr_chan[] = {0, 0}`).  On a decoder that
+has been fed ANY history in which field `f` executed no control pair - pairs of the other field without restriction (its
+services may be active in any mode), characters / NUL pairs / bad-parity pairs / 0x01..0x0F pairs of field `f`, page
+fetches - the selector `curr_chan[f]` is still 0, the channel the character branch looks up,
+`(curr_chan[f] & 5) + 2 f` = CC1 resp. CC3, has no mode, and a further pair of field `f` that is not an executed control
+pair is DISCARDED: every one of the nine channels keeps its memories, cursor, mode, pen and event count (only `nul_ct` of
+CC1 / CC3 may be reset).  In particular field-2 characters before the first field-2 mode command never reach CC1 (seed
+C08-e indexes `channel[curr_chan[1]]` = CC1 there; the model indexes as the C expression does, `textIdx`).
+Needs the per-field selector (`currChanPerField`, a generated fact).  Channel switches inside the history are not covered
+by this theorem (class `premode` of checks/C08.py tests them; with `chswResetsCurr` the selectors return to 0). -/
+theorem chars_before_mode_discarded (hpf : currChanPerField = true) (f : Bool) (ops : List Op)
+    (hq : ∀ op ∈ ops, quiet f op) (b0 b1 : Nat) (hn : isControl b0 = false) :
+    (run ops).curr f = 0 ∧ textIdx (run ops) f = capIdx f ∧
+    (∃ ch, (run ops).chans[capIdx f]? = some ch ∧ ch.mode = .none) ∧
+    ∀ i ch, (run ops).chans[i]? = some ch →
+      (decodePair (run ops) f b0 b1).chans[i]? = some ch ∨
+      (i = capIdx f ∧ (decodePair (run ops) f b0 b1).chans[i]? = some { ch with nulCt := 0 }) := by
+  have P : PreMode f (run ops) := foldl_premode hpf f ops hq init (init_premode f)
+  obtain ⟨c, hc, hm⟩ := P.none
+  refine ⟨P.cur, textIdx_of_cur P.cur, ⟨c, hc, hm⟩, fun i ch hi => ?_⟩
+  have := (decodePair_premode (run ops) f b0 b1 hn (ch := c) (by rw [textIdx_of_cur P.cur]; exact hc) hm).2 i
+  rcases this with e | ⟨e1, e2⟩
+  · left; rw [e]; exact hi
+  · right
+    rw [textIdx_of_cur P.cur] at e1
+    have : ch = c := by rw [e1, hc] at hi; exact (Option.some.inj hi).symm
+    subst this
+    exact ⟨e1, e2⟩
+
+/-- a history that keeps field 2 silent: CC1 is put into roll-up mode and receives text, field 2 sends characters -/
+example : ∀ op ∈ [Op.pair false 0x94 0x25, .pair false 0x94 0x25, .pair false 0xC1 0xC2, .pair true 0xC1 0xC2, .fetch 1],
+    quiet true op := by
+  intro op h
+  simp only [List.mem_cons, List.not_mem_nil, or_false] at h
+  rcases h with rfl | rfl | rfl | rfl | rfl
+  · exact fun h => absurd h (by decide)
+  · exact fun h => absurd h (by decide)
+  · exact fun h => absurd h (by decide)
+  · exact fun _ => by decide
+  · trivial
 
 /-- witness of finding F44: RCL for CC1 (field 1, sent twice), RCL for CC4 on field 2, then `AB` on field 1 -/
 def f44Witness : List (Bool × Nat × Nat) :=
